@@ -584,6 +584,11 @@ func (cl *cluster) check(when string) {
 			}
 		}
 		if w, ok := cl.written[i]; ok && i < cl.lostFrom && !bytes.Equal(w, data) {
+			if by, ok := cl.appendedBy[i]; ok && cl.tailLostInc != 0 && by < cl.tailLostInc {
+				// the same history seen through the ledger (the leader has acknowledged or collected the position)
+				c.Violate("C08/bytes-differ/stale-delivery-from-dead-leader-after-tail-loss", "%s: position %d on the follower was appended by the still running handler of a stream opened by leader incarnation %d; the leader restarted from an older image of its log (incarnation %d) and reused the index for a new message", when, i, by, cl.tailLostInc)
+				return
+			}
 			c.Violate("C08/bytes-differ", "%s: follower position %d does not hold the message the leader stored at %d", when, i, i)
 			return
 		}
